@@ -132,17 +132,22 @@ def fp_value(v) -> str:
     return hashlib.sha1(json.dumps(canon(v), sort_keys=True, default=str).encode()).hexdigest()[:16]
 
 
-def walk_buffers(roots, max_depth=7):
+def walk_buffers(roots, max_depth=9):
     """{path: ndarray} for every numpy array reachable from the named roots through __dict__s, lists,
     tuples and dicts (cached_property values live in __dict__ and are therefore included)."""
     out = {}
+    seen = set()  # every object / array is visited once, under the first path that reaches it (roots in order)
 
     def rec(v, path, depth, stack):
         if isinstance(v, np.ndarray):
-            out[path] = v
+            if id(v) not in seen:
+                seen.add(id(v))
+                out[path] = v
             return
-        if depth > max_depth or id(v) in stack:
+        if depth > max_depth or id(v) in seen:
             return
+        if not isinstance(v, (int, float, str, bool, type(None))):
+            seen.add(id(v))
         if isinstance(v, (list, tuple)):
             if len(v) > 64:
                 return
@@ -167,9 +172,87 @@ def walk_buffers(roots, max_depth=7):
     return out
 
 
+def fp_state(v, depth=0, stack=frozenset()):
+    """fingerprint of the whole state of an object (every attribute, cached ones included)."""
+    if isinstance(v, np.ndarray):
+        return fp_bytes(v)
+    if v is None or isinstance(v, (bool, int, float, str, complex, np.generic)):
+        return repr(v)
+    if depth > 5 or id(v) in stack:
+        return "..."
+    if isinstance(v, (list, tuple)):
+        return [fp_state(x, depth + 1, stack) for x in v[:64]]
+    if isinstance(v, dict):
+        return [[str(k) if isinstance(k, (str, int)) else type(k).__name__, fp_state(x, depth + 1, stack)]
+                for k, x in v.items()]
+    d = getattr(v, "__dict__", None)
+    if isinstance(d, dict):
+        stack = stack | {id(v)}
+        return [type(v).__name__, [[k, fp_state(x, depth + 1, stack)] for k, x in d.items() if k != "run_time_dict"]]
+    return type(v).__name__
+
+
+_DEFAULTS = None
+
+
+def shared_defaults():
+    """the module-level default instances shared by every call that omits the argument (mutable default
+    arguments: SettingsInversion / Preloads / OverSamplingDataset / DatasetModel ...)."""
+    global _DEFAULTS
+    if _DEFAULTS is None:
+        aa = load_autoarray()
+        import inspect
+        from autoarray.inversion.inversion import factory
+        from autoarray.inversion.inversion import inversion_util
+        funcs = [("inversion_from", factory.inversion_from), ("inversion_imaging_from", factory.inversion_imaging_from),
+                 ("Imaging", aa.Imaging.__init__), ("Imaging.apply_over_sampling", aa.Imaging.apply_over_sampling),
+                 ("FitImaging", aa.FitImaging.__init__), ("MapperValued", aa.MapperValued.__init__),
+                 ("reconstruction_positive_only_from", inversion_util.reconstruction_positive_only_from)]
+        for cls_name in ("InversionImagingMapping", "InversionImagingWTilde"):
+            cls = getattr(aa, cls_name, None)
+            if cls is not None:
+                funcs.append((cls_name, cls.__init__))
+        out = {}
+        for name, f in funcs:
+            try:
+                sig = inspect.signature(f)
+            except (TypeError, ValueError):
+                continue
+            for pn, prm in sig.parameters.items():
+                dv = prm.default
+                if dv is not inspect.Parameter.empty and type(dv).__module__.split(".")[0] == "autoarray":
+                    out[f"{name}({pn}=)"] = dv
+        _DEFAULTS = out
+        global _DEFAULTS_PRISTINE
+        _DEFAULTS_PRISTINE = defaults_state()
+    return _DEFAULTS
+
+
+_DEFAULTS_PRISTINE = None
+
+
+def defaults_state():
+    return {k: hashlib.sha1(json.dumps(fp_state(v), default=str).encode()).hexdigest()[:16]
+            for k, v in (_DEFAULTS or {}).items()}
+
+
+def polluted_defaults():
+    """shared default instances whose state differs from the one they had when autoarray was imported
+    (an earlier operation in this process wrote into them)."""
+    shared_defaults()
+    cur = defaults_state()
+    return sorted(f"default:{k}" for k, f in _DEFAULTS_PRISTINE.items()
+                  if cur.get(k) != f and f"default:{k}" not in _DEFAULTS_REPORTED)
+
+
+_DEFAULTS_REPORTED = set()  # already attributed to an observed step of an earlier case in this process
+
+
 class Snapshot:
     def __init__(self, inputs, pool):
         self.inputs = {k: fp_bytes(v) for k, v in inputs.items()}
+        shared_defaults()
+        self.defaults = defaults_state()
         bufs = walk_buffers({f"obj{i}": o for i, o in enumerate(pool)})
         memo = {}
         self.paths = {}
@@ -185,9 +268,9 @@ class Snapshot:
         bad_ids = set()
         for p, (i, f) in before.paths.items():
             cur = self.paths.get(p)
-            if cur is not None and cur[0] == i and cur[1] != f:
-                bad_ids.add(i)
-        toks = set()
+            if cur is not None and cur[1] != f:
+                bad_ids.add(cur[0])
+        toks = {f"default:{k}" for k, f in before.defaults.items() if self.defaults.get(k) != f}
         for k, f in before.inputs.items():
             if k in self.inputs and self.inputs[k] != f:
                 arr = inputs[k]
@@ -208,9 +291,15 @@ class Snapshot:
             if k in self.inputs and self.inputs[k] != f:
                 ch.append(f"input:{k}")
         for p, (i, f) in before.paths.items():
+            # a path that exists before and after the step must hold the same bytes (also when the attribute
+            # was rebound to a new array); a path that disappears (cache entry deleted) is not compared
             cur = self.paths.get(p)
-            if cur is not None and cur[0] == i and cur[1] != f:
+            if cur is not None and cur[1] != f:
                 ch.append(p)
+        for k, f in before.defaults.items():
+            if self.defaults.get(k) != f:
+                ch.append(f"default:{k}")
+                _DEFAULTS_REPORTED.add(f"default:{k}")
         return sorted(ch)
 
 
@@ -226,7 +315,8 @@ class Graph:
     """pool of objects built stage by stage; `kinds[i]` names the effects-table kind of pool[i],
     `parents[i]` the pool indexes it was built from; `inputs` the caller-owned numpy buffers."""
 
-    def __init__(self):
+    def __init__(self, track=True):
+        self.track = track  # fingerprint inputs / earlier objects around every constructor stage
         self.pool, self.kinds, self.parents = [], [], []
         self.inputs = {}
         self.ctor_changed = []
@@ -237,12 +327,14 @@ class Graph:
         return arr
 
     def stage(self, kind, parents, fn):
-        before = Snapshot(self.inputs, self.pool)
+        if self.track:
+            before = Snapshot(self.inputs, self.pool)
         obj = fn()
-        after = Snapshot(self.inputs, self.pool)
-        ch = after.changed_since(before)
-        if ch:
-            self.ctor_changed.append({"stage": len(self.pool), "kind": kind, "changed": ch})
+        if self.track:
+            after = Snapshot(self.inputs, self.pool)
+            ch = after.changed_since(before)
+            if ch:
+                self.ctor_changed.append({"stage": len(self.pool), "kind": kind, "changed": ch})
         self.pool.append(obj)
         self.kinds.append(kind)
         self.parents.append(list(parents))
@@ -254,11 +346,11 @@ class StopBuild(Exception):
     pass
 
 
-def build_graph(b, upto=None) -> Graph:
+def build_graph(b, upto=None, track=True) -> Graph:
     """deterministic builder: equal spec -> equal (fresh) object graph.  `upto` = build only the stages
     needed for pool[upto]."""
     aa = load_autoarray()
-    g = Graph()
+    g = Graph(track=track)
 
     def done():
         return upto is not None and len(g.pool) > upto
@@ -509,9 +601,16 @@ def _shape_arg(s):
     return (int(a), int(b_))
 
 
-def do_query(obj, kind, name, arg, build):
-    """query methods with arguments; every array argument is created here (caller-owned, fresh)."""
+def do_query(obj, kind, name, arg, build, track=None):
+    """query methods with arguments; every array argument is created here (caller-owned, fresh) and
+    registered in `track` (name -> (array, fingerprint at creation)) so the caller can check it afterwards."""
     aa = load_autoarray()
+
+    def own(nm, a):
+        if track is not None:
+            track[nm] = (a, fp_bytes(a))
+        return a
+
     if name == "blurring_from":
         return obj.derive_mask.blurring_from(kernel_shape_native=_shape_arg(arg))
     if name == "sub_mask":
@@ -528,10 +627,12 @@ def do_query(obj, kind, name, arg, build):
         # obj: Kernel2D; convolve the build's data image (fresh caller array)
         h, w = build["mask"]["h"], build["mask"]["w"]
         src = build.get("data") or build.get("image")
-        arr = aa.Array2D.no_mask(values=_arr(src, (h, w)), pixel_scales=obj.pixel_scales)
+        vals = own("image", _arr(src, (h, w)) if src else np.arange(1.0, h * w + 1.0).reshape(h, w))
+        arr = aa.Array2D.no_mask(values=vals, pixel_scales=obj.pixel_scales)
+        own("image_array2d", arr._array)
         return obj.convolved_array_from(array=arr)
     if name == "trimmed_array_from":
-        return obj.trimmed_array_from(padded_array=np.ones(obj.shape_native), image_shape=_shape_arg(arg))
+        return obj.trimmed_array_from(padded_array=own("padded", np.ones(obj.shape_native)), image_shape=_shape_arg(arg))
     if name == "max_pixel_list_from":
         tot, filt = arg.split(",")
         return obj.max_pixel_list_from(total_pixels=int(tot), filter_neighbors=filt == "1")
@@ -547,19 +648,20 @@ def do_query(obj, kind, name, arg, build):
         return obj.pixel_signals_from(signal_scale=float(Fraction(arg)))
     if name == "mapped_to_source_from":
         n = obj.mapper_grids.mask.pixels_in_mask
-        arr = aa.Array2D(values=np.arange(1.0, n + 1.0), mask=obj.mapper_grids.mask)
+        arr = aa.Array2D(values=own("array_values", np.arange(1.0, n + 1.0)), mask=obj.mapper_grids.mask)
+        own("array", arr._array)
         return obj.mapped_to_source_from(array=arr)
     if name == "mapper_interpolated_array_from":
-        vals = np.arange(1.0, obj.params + 1.0)
+        vals = own("values", np.arange(1.0, obj.params + 1.0))
         return obj.interpolated_array_from(values=vals, shape_native=_shape_arg(arg))
     if name == "source_quantity_dict_from":
         return obj.source_quantity_dict_from(source_quantity=obj.reconstruction)
     if name == "convolve_mapping_matrix":
-        mm = np.array(obj.linear_obj_list[0].mapping_matrix)
+        mm = own("mapping_matrix", np.array(obj.linear_obj_list[0].mapping_matrix))
         return obj.convolver.convolve_mapping_matrix(mapping_matrix=mm)
     if name == "binned_array_2d_from":
         n = obj.sub_total
-        return obj.binned_array_2d_from(array=np.arange(1.0, n + 1.0))
+        return obj.binned_array_2d_from(array=own("array", np.arange(1.0, n + 1.0)))
     raise ValueError(f"unknown query {name}")
 
 
@@ -744,12 +846,19 @@ def term_key(root, path):
 class FreshEval:
     """value of (key) on a freshly built equal object described by a contents term."""
 
+    _shared = {}  # build-key -> memo; the same fresh value serves the oracle and the model's interpretation
+
     def __init__(self, build):
         self.build = build
-        self.memo = {}
+        bk = hashlib.sha1(json.dumps(build, sort_keys=True).encode()).hexdigest()
+        if bk not in FreshEval._shared:
+            if len(FreshEval._shared) > 4000:
+                FreshEval._shared.clear()
+            FreshEval._shared[bk] = {}
+        self.memo = FreshEval._shared[bk]
 
     def obj(self, root, path):
-        g = build_graph(self.build, upto=root)
+        g = build_graph(self.build, upto=root, track=False)
         o, kind = g.pool[root], g.kinds[root]
         for gname in path:
             o = do_derive(o, kind, gname, self.build)
@@ -773,7 +882,11 @@ class FreshEval:
 
 def run_history(case):
     b = case["build"]
+    pre = polluted_defaults()
     g = build_graph(b)
+    if pre:
+        g.ctor_changed.insert(0, {"stage": -1, "kind": "(state left by earlier operations in this process)",
+                                  "changed": pre})
     terms = [(i, []) for i in range(len(g.pool))]
     fresh = FreshEval(b)
     steps_out = []
@@ -819,7 +932,9 @@ def run_history(case):
                     rbv = safe_value(lambda: do_read(rb, st["key"]))
                     out["rebuilt"] = rbv
         elif st["op"] == "query":
-            out["value"] = safe_value(lambda: do_query(obj, kind, st["name"], st.get("arg", ""), b))
+            qargs = {}
+            out["value"] = safe_value(lambda: do_query(obj, kind, st["name"], st.get("arg", ""), b, track=qargs))
+            out["_qargs_changed"] = sorted(f"input:query-arg:{nm}" for nm, (a, f0) in qargs.items() if fp_bytes(a) != f0)
             root, path = terms[o]
             out["fresh"] = fresh.value(root, path, st)
         elif st["op"] == "derive":
@@ -843,8 +958,9 @@ def run_history(case):
                 g.parents.append([])
                 terms.append((terms[o][0], terms[o][1] + [st["g"]]))
         after = Snapshot(g.inputs, g.pool)
-        out["changed"] = after.changed_since(snap)
-        out["owners"] = after.owners_changed_since(snap, g.pool, g.inputs)
+        qch = out.pop("_qargs_changed", [])
+        out["changed"] = sorted(after.changed_since(snap) + qch)
+        out["owners"] = sorted(after.owners_changed_since(snap, g.pool, g.inputs) + qch)
         snap = after
         steps_out.append(out)
     meta = {"kinds": g.kinds[: g.n_roots], "parents": g.parents[: g.n_roots],
@@ -1208,7 +1324,7 @@ class C11(PropertyCheck):
         # 2. stale-cache patterns: every (kind, cached key, derivation)
         yield from self._pattern_cases(rng, alpha, reps=1 if quick else 4)
         # 3. random histories over structure graphs
-        n = 70 if quick else 500
+        n = 140 if quick else 800
         for i in range(n):
             struct = rng.choice(["Array2D", "Grid2D", "Grid2D", "VectorYX2D", "Kernel2D", "Mask2D", "Visibilities",
                                  "Visibilities"])
@@ -1217,7 +1333,7 @@ class C11(PropertyCheck):
             hist = random_history(rng, ks, rng.randint(3, maxsteps), alpha, focus=len(ks) - 1)
             yield {"tag": f"hist_{struct}", "kind": "history", "build": b, "history": hist}
         # 4. dataset / fit graphs
-        n = 30 if quick else 250
+        n = 60 if quick else 400
         for i in range(n):
             m, mk = _mask_for_dataset(rng)
             b = dataset_build(rng, m, inversion=False)
@@ -1225,7 +1341,7 @@ class C11(PropertyCheck):
             hist = random_history(rng, ks, rng.randint(3, maxsteps), alpha, focus=5)
             yield {"tag": f"hist_dataset_{mk}", "kind": "history", "build": b, "history": hist}
         # 5. inversion / mapper / valued-mapper graphs
-        n = 45 if quick else 350
+        n = 90 if quick else 600
         for i in range(n):
             m, mk = _mask_for_dataset(rng)
             b = dataset_build(rng, m, inversion=True)
@@ -1244,6 +1360,9 @@ class C11(PropertyCheck):
             hist.insert(rng.randint(0, len(hist)), {"op": "read", "obj": mvi, "key": "values_masked"})
             hist.append({"op": "read", "obj": mvi, "key": "values"})
             yield {"tag": "hist_valued_d9b", "kind": "history", "build": b, "history": hist}
+        # 5c. sweeps: every quantity of an object (and of the objects it was built from) read in a random order,
+        #     twice: every ordered pair (x read, later y read) of quantities occurs in one history
+        yield from self._sweep_cases(rng, alpha, reps=2 if quick else 8)
         # 6. seeded simulation under perturbed global RNG states
         n = 25 if quick else 200
         for i in range(n):
@@ -1304,6 +1423,50 @@ class C11(PropertyCheck):
                                 {"op": "read", "obj": d, "key": other}, {"op": "derive", "obj": d, "g": gname},
                                 {"op": "read", "obj": d + 1, "key": key}]
                         yield {"tag": f"pattern_{kind}", "kind": "history", "build": b, "history": hist}
+
+    def _sweep_cases(self, rng, alpha, reps):
+        def all_ops(ks, idxs):
+            ops = []
+            for o in idxs:
+                for key in alpha.reads(ks[o]):
+                    ops.append({"op": "read", "obj": o, "key": key})
+                for name, spec in alpha.queries(ks[o]).items():
+                    args = spec.get("args")
+                    ops.append({"op": "query", "obj": o, "name": name, "arg": rng.choice(args) if args else ""})
+            return ops
+
+        for _ in range(reps):
+            for struct in ("Array2D", "Grid2D", "VectorYX2D", "Kernel2D", "Mask2D", "Visibilities"):
+                b = self._struct_case_build(rng, struct)
+                ks = root_kinds(b)
+                ops = all_ops(ks, [len(ks) - 1])
+                rng.shuffle(ops)
+                yield {"tag": f"sweep_{struct}", "kind": "history", "build": b, "history": ops + ops}
+            m, _ = _mask_for_dataset(rng)
+            b = dataset_build(rng, m)
+            ks = root_kinds(b)
+            ops = all_ops(ks, [8, 9, 11])
+            rng.shuffle(ops)
+            yield {"tag": "sweep_dataset", "kind": "history", "build": b, "history": ops + ops}
+            for wt in (False, True):
+                for nm in (1, 2):
+                    m, _ = _mask_for_dataset(rng)
+                    b = dataset_build(rng, m, inversion=True)
+                    while len(b["mappers"]) != nm:
+                        b = dataset_build(rng, m, inversion=True)
+                    b["w_tilde"] = wt
+                    if wt and b["psf_shape"][0] != b["psf_shape"][1]:
+                        k = max(b["psf_shape"])
+                        b["psf_shape"] = [k, k]
+                        b["psf"] = [q(_pos(rng, 0, 4) + Fraction(1, 4)) for _ in range(k * k)]
+                    ks = root_kinds(b)
+                    idxs = [i for i, k in enumerate(ks) if k in ("Inversion", "Mapper", "FitInversion", "Mesh",
+                                                                 "OverSampler", "Grid2DIrregular")
+                            or k.startswith("MapperValued")] + [9]
+                    ops = all_ops(ks, idxs)
+                    rng.shuffle(ops)
+                    yield {"tag": f"sweep_inversion_{'wt' if wt else 'map'}_{nm}", "kind": "history", "build": b,
+                           "history": ops + ops}
 
     def _rng_case(self, rng, maxsteps):
         # >= 6 pixels and >= 300 expected counts per unit flux: two different seeds giving the same Poisson
@@ -1499,6 +1662,14 @@ class C11(PropertyCheck):
         if not any(st["obj"] == mvi and (st.get("key") or st.get("name")) in self.D9B_OPS
                    for st in case["history"]):
             return None
+        # the symptoms must be those of this defect: nothing wrong at construction, and the only buffers that
+        # change belong to the holder of the values (the caller's buffer / the inversion caching the reconstruction)
+        if not isinstance(obs, dict) or obs.get("ctor"):
+            return None
+        holder = f"obj{mvi - 1}" if mv["values"] != "reconstruction" else f"obj{ks.index('Inversion')}"
+        for st_obs in obs.get("steps", []):
+            if any(t != holder for t in st_obs.get("owners", [])):
+                return None
         aa = load_autoarray()
         orig = aa.MapperValued.__dict__["values_masked"]
 
@@ -1529,9 +1700,16 @@ class C11(PropertyCheck):
         # shortest failing prefix first, then single non-derive steps (derive steps define later indexes)
         for n in range(1, len(hist)):
             yield {**case, "history": hist[:n]}
-        for i, st in enumerate(hist):
-            if st["op"] != "derive":
-                yield {**case, "history": hist[:i] + hist[i + 1:]}
+        # remove blocks of non-derive steps (halves, quarters, ...), keeping the last step, then single steps
+        idx = [i for i, st in enumerate(hist[:-1]) if st["op"] != "derive"]
+        size = len(idx) // 2
+        while size >= 2:
+            for a in range(0, len(idx), size):
+                drop = set(idx[a:a + size])
+                yield {**case, "history": [st for i, st in enumerate(hist) if i not in drop]}
+            size //= 2
+        for i in idx:
+            yield {**case, "history": hist[:i] + hist[i + 1:]}
 
     def sample_view(self, case):
         return {k: v for k, v in case.items() if not k.startswith("_")}
